@@ -104,6 +104,24 @@ def attempt_A(a, deflate):
     raise ValueError(kind)
 
 
+PROXY_200 = b"HTTP/1.1 200 Connection established\r\nVia: 1.1 p\r\n\r\n"
+PROXIES = {"http": "http://proxy.test:3128", "https": "http://proxy.test:3128"}
+
+
+def through_proxy(att, seg="whole", cut=None, end="eof"):
+    """The same attempt made through an HTTP proxy: the CONNECT exchange first (the proxy's answer under the given
+    segmentation), or - cut given - an exchange that breaks off after that many bytes of the proxy's answer."""
+    att = dict(att)
+    if not att.get("script"):
+        return att                      # the connection (to the proxy, then) is refused
+    if cut is not None:
+        att["script"] = [["wait_request"], ["stream", [["bytes", PROXY_200[:cut % len(PROXY_200)]]], "whole", 0.0], [end, 0.0]]
+        att.pop("reactions", None)
+        return att
+    att["script"] = [["wait_request"], ["stream", [["bytes", PROXY_200]], seg, 0.0], ["wait_requests", 2]] + att["script"][1:]
+    return att
+
+
 def attempt_B(b, deflate):
     reply = ext_reply(deflate)
     peer = deflateref.peer_of(deflate)
@@ -197,7 +215,13 @@ class C17(Prop):
             "seg": st.sampled_from(["whole", "whole", ["uniform", 3], ["uniform", 64]]),
             "deflate": gen.deflate_opt()})
         # the previous connections and B negotiate permessage-deflate independently (off / defaults / drawn parameters)
-        return st.fixed_dictionaries({"A": st.lists(a, min_size=1, max_size=4), "B": b, "deflate": gen.deflate_opt()})
+        # every connection of the chain is made through an HTTP proxy; a previous attempt may have ended inside the
+        # proxy's answer ("pcut"), and B's proxy answer comes under its own segmentation
+        proxy = gen.weighted([(3, st.none()), (1, st.fixed_dictionaries({
+            "b_seg": st.sampled_from(["whole", "bytewise", ["uniform", 20], ["cuts", [12]]]),
+            "pcut": st.lists(st.one_of(st.none(), st.integers(1, len(PROXY_200) - 1)), min_size=4, max_size=4)}))])
+        return st.fixed_dictionaries({"A": st.lists(a, min_size=1, max_size=4), "B": b, "deflate": gen.deflate_opt(),
+                                      "proxy": proxy})
 
     def enumerations(self, tier):
         def pairs():
@@ -227,7 +251,25 @@ class C17(Prop):
                     for msgs in ([], [{"kind": "text", "payload": ["str", "prev"], "frag": [2]}]):
                         yield {"A": [{"kind": "abandon_hold", "frac": frac, "msgs": msgs, "end": "eof", "release": release}],
                                "B": b0, "deflate": False}
+        def proxied():
+            b0 = {"msgs": [{"kind": "text", "payload": ["str", "h\u00e9llo"], "frag": [3]}, {"kind": "ping", "payload": ["hex", "01"]}],
+                  "cmask": 0, "viol": None, "close": True, "app_close": None, "timers": False, "idle": 2, "seg": "whole",
+                  "deflate": False}
+            prev = [{"kind": "text", "payload": ["str", "prev"], "frag": [2]}]
+            for kind in A_KINDS:
+                for b_seg in ("whole", "bytewise", ["cuts", [12]], ["cuts", [len(PROXY_200) - 2]]):
+                    for pcut in (None, 1, 12, len(PROXY_200) - 1):
+                        for end in ("eof", "reset"):
+                            yield {"A": [{"kind": kind, "frac": 500, "msgs": prev, "end": end}], "B": b0, "deflate": False,
+                                   "proxy": {"b_seg": b_seg, "pcut": [pcut]}}
+            # two previous attempts: one through the whole tunnel, one that broke off inside the proxy's answer
+            for first, second in ((None, 12), (12, None), (12, 30), (None, None)):
+                for b_seg in ("whole", ["cuts", [12]]):
+                    yield {"A": [{"kind": "server_close", "frac": 500, "msgs": prev, "end": "eof"},
+                                 {"kind": "cut", "frac": 700, "msgs": prev, "end": "reset"}], "B": b0, "deflate": False,
+                           "proxy": {"b_seg": b_seg, "pcut": [first, second]}}
         return [Enumeration("every_abnormal_ending_x_B", pairs, exhaustive=True),
+                Enumeration("chains_through_a_proxy", proxied, exhaustive=True),
                 Enumeration("generator_of_the_abandoned_connection_finalised_late", held_generators, exhaustive=True)]
 
     def run_case(self, case):
@@ -244,12 +286,26 @@ class C17(Prop):
         n = len(atts)
         keys = ["%032x" % (0x1000 + i) for i in range(n + 2)]
         ws_opts = {"compress": True} if (deflate or deflate_b) else None
+        proxy = case.get("proxy")
+        if proxy:
+            ws_opts = dict(ws_opts or {}, proxies=PROXIES)
+            atts = [through_proxy(a, cut=proxy["pcut"][i % len(proxy["pcut"])], end=case["A"][i].get("end", "eof"))
+                    for i, a in enumerate(atts)]
+            released = chainB.get("release_held")
+            attB = through_proxy(attB, seg=proxy["b_seg"])
+            chainB = dict(attB)
+            if released is not None:
+                chainB["release_held"] = released
         chain = {"url": build.URL, "attempts": atts + [chainB], "keys": keys}
         fresh = {"url": build.URL, "attempts": [attB], "keys": [keys[0], keys[n + 1]]}
         if ws_opts:
             chain["ws_opts"] = ws_opts
             fresh["ws_opts"] = ws_opts
         labels = {"A:" + a["kind"] for a in case["A"]}
+        if proxy:
+            labels.add("through_proxy")
+            if any(c is not None for c in proxy["pcut"][:n]):
+                labels.add("A:cut_inside_the_proxy_answer")
         # the fresh-object reference runs FIRST: whatever the chain leaves behind in the process cannot reach it
         ref = simnet.run_chain(fresh)[0]
         traces = simnet.run_chain(chain)
